@@ -54,6 +54,14 @@ def main():
                 b = Builder(it["spec"])
                 keep.append(b)
                 top = b.module(it["spec"]["top"])
+            elif "pdk_item" in it:
+                from vlib.checks import c15
+                case = c15.C06_ITEMS[it["pdk_item"]]
+                pdkmod = c15.imp(case["target"])
+                mods, _ = c15.build(case["reqs"], case["shape"])
+                top = mods[-1]
+                keep.append(mods)
+                pdkmod.compile(top)
             else:
                 top = corpus.items(job.get("tier", "quick"))[it["corpus"]][1]()
         except Exception as e:
